@@ -32,7 +32,8 @@ def showConn (d : Daemon) (i : Id) : Option String :=
   if d.conns.contains i || d.susp.contains i || d.cleanup.contains i then
     let c := d.c i
     some (s!" {i}:{c.la}:{c.tmo}:" ++ (if c.suspended then "s" else "") ++ (if c.resuming then "r" else "")
-      ++ (if c.closed then "x" else ""))
+      ++ (if c.closed then "x" else "") ++ (if procWait c then "p" else "")
+      ++ (if c.buf > 0 && !c.closed && c.kind == Kind.post then s!"b{c.buf}" else ""))
   else none
 
 def report (v : Variant) (echo : String) (d : Daemon) (evs : List Event) (extra : List String := []) : String :=
@@ -71,6 +72,10 @@ def parseOp (ws : List String) : Option Op :=
   | ["arrive", a] => a.toNat?.map Op.arrive
   | ["send", a] => a.toNat?.map Op.send
   | ["sendp", a] => a.toNat?.map Op.sendp
+  | ["sendn", a, b] => match a.toNat?, b.toNat? with
+    | some i, some k => some (Op.sendn i k)
+    | _, _ => none
+  | ["slow", a] => a.toNat?.map Op.slow
   | ["cclose", a] => a.toNat?.map Op.cclose
   | ["tick", a] => a.toNat?.bind fun n => if n < W then some (Op.tick n) else none
   | ["tickback", a] => a.toNat?.bind fun n => if n < W then some (Op.tickback n) else none
@@ -139,6 +144,6 @@ def stepLine (s : DSt) (ws : List String) : DSt × List String :=
 def main (args : List String) : IO Unit :=
   let v : Variant := match args with
     | ["asis"] => Variant.asIs
-    | ["fixed"] => ⟨true, true, true, true, Variant.current.savePrev, true⟩
+    | ["fixed"] => ⟨true, true, true, true, Variant.current.savePrev, true, true⟩
     | _ => Variant.current
   runEngine ({ v := v } : DSt) stepLine
